@@ -90,4 +90,28 @@ theorem ceil_div_bounds (n m : ℤ) (hm : 0 < m) : (-(-n / m) - 1) * m < n ∧ n
   · have h := Int.ediv_mul_le (-n) (ne_of_gt hm)
     nlinarith
 
+/-- folds of point-wise equal sequences of equal length are equal (C19 induction over Add / Mul of any arity; C01 / C08 `reduce(matmul)`). -/
+theorem sum_congr_pointwise (f g : ℕ → ℝ) (n : ℕ) (h : ∀ i < n, f i = g i) :
+    (Finset.range n).sum f = (Finset.range n).sum g :=
+  Finset.sum_congr rfl (fun i hi => h i (Finset.mem_range.mp hi))
+theorem prod_congr_pointwise (f g : ℕ → ℝ) (n : ℕ) (h : ∀ i < n, f i = g i) :
+    (Finset.range n).prod f = (Finset.range n).prod g :=
+  Finset.prod_congr rfl (fun i hi => h i (Finset.mem_range.mp hi))
+
+/-- unfolding of a sum / product at its last element (the three instances asserted per fold in vfw/exmodel.py). -/
+theorem sum_unfold (f : ℕ → ℝ) (n : ℕ) : (Finset.range (n + 1)).sum f = (Finset.range n).sum f + f n :=
+  Finset.sum_range_succ f n
+theorem prod_unfold (f : ℕ → ℝ) (n : ℕ) : (Finset.range (n + 1)).prod f = (Finset.range n).prod f * f n :=
+  Finset.prod_range_succ f n
+
+/-- division is multiplication by the inverse; `x ^ (-1) = x⁻¹`; subtraction of a negation (C19: div / sub special cases). -/
+theorem div_as_mul_inv (a b : ℂ) : a / b = a * b⁻¹ := div_eq_mul_inv a b
+theorem zpow_neg_one_rule (x : ℂ) : x ^ (-1 : ℤ) = x⁻¹ := zpow_neg_one x
+theorem sub_neg_rule (a b : ℂ) : a - (-b) = a + b := sub_neg_eq_add a b
+
+/-- the RBF kernel value depends only on the real distance of the two points, so rounding outcome codes to doubles keeps the kernel matrix a
+    Gram matrix of the same kernel (C17 fix 164eb9f keeps non-negativity of the squared MMD). -/
+theorem rbf_symm (x y g : ℝ) : Real.exp (-g * |x - y| ^ 2) = Real.exp (-g * |y - x| ^ 2) := by
+  rw [abs_sub_comm]
+
 end VerifPrelude
